@@ -550,6 +550,10 @@ fn scalar_index(dict: Option<&dyn AnyDictionaryArray>, ree: Option<&ReeInfo>) ->
 /// each run's result. Zero allocation — downcasts internally to access typed
 /// run_ends directly.
 fn expand_from_runs(info: &ReeInfo, buffer: BooleanBuffer) -> BooleanBuffer {
+    if info.len == 0 {
+        // An empty slice has no runs to expand; `start_physical` is not meaningful for it.
+        return BooleanBuffer::new_unset(0);
+    }
     let array = info.array;
     downcast_run_array!(
         array => {
